@@ -251,13 +251,22 @@ def timeoutOutcome (q : Query) : Outcome :=
   | [(c, ps)] => if quorumOf q.cfg ≤ ps.length then sendChecked q.cfg c else .timeout
   | _ => .timeout
 
+/-- every version decodes as transactions (`get_transactions_from_record` is `Ok` for each) -/
+def allTx (cs : List Content) : Bool := cs.all (fun c => (txsOf c).isSome)
+
 /-- Outcome of `accumulate_get_record_found` once a version reached the quorum; `rs` is the updated map and
-`c` the record that just arrived. -/
-def completedOutcome (cfg : Cfg) (rs : List (Content × List Nat)) (c : Content) (keyOk : Bool) : Outcome :=
+`c` the record that just arrived. With several versions: the transaction union, provided it is not empty and — with
+`needAll` (`Gen.accMergeNeedsAllTx`: `all_versions_are_transactions`) — every version held is a transaction record;
+else `SplitRecord` with the whole map. (`needAll = false` is the code before the repair: versions that are no
+transactions were left out of an `Ok(union)`.) -/
+def completedOutcomeWith (needAll : Bool) (cfg : Cfg) (rs : List (Content × List Nat)) (c : Content) (keyOk : Bool) : Outcome :=
   if rs.length == 1 then sendCheckedK cfg c keyOk
   else
     let u := txUnion (rs.map (·.1))
-    if u.isEmpty then .split rs else .ok (.txs u)
+    if u.isEmpty || (needAll && !allTx (rs.map (·.1))) then .split rs else .ok (.txs u)
+
+def completedOutcome (cfg : Cfg) (rs : List (Content × List Nat)) (c : Content) (keyOk : Bool) : Outcome :=
+  completedOutcomeWith accMergeNeedsAllTx cfg rs c keyOk
 
 def step (s : State) : Op → State × Out
   | .get key caller cfg =>
@@ -334,8 +343,21 @@ def kindOf : Content → Option Kind
   | .pad _ _ _ _ => some .pad
 
 /-- `SignedRegister::verify`: owner signature on the base register and every op from a permitted writer. -/
-def regValid : Content → Bool
+def regVerified : Content → Bool
   | .reg _ sigOk ops => sigOk && ops.all (fun o => decide (o < strangerOpsFrom))
+  | _ => false
+
+/-- the address (meta, owner) of base register `b`: bases `0` and `2` are two different base registers (different
+permissions, both signed by the owner) at one address, base `1` lives at another address -/
+def regAddr (b : Nat) : Nat := b % 2
+
+/-- the `merge` op reads the record key of register address 0 (when the versions are registers) -/
+def mergeKeyRegAddr : Nat := 0
+
+/-- a register the split handling collects: it lives at the record key being read (the address check of the `Register`
+arm, `Gen.splitRegChecksKey`; a register of another address is skipped like an unverifiable one) and `verify()`s -/
+def regValid : Content → Bool
+  | .reg b sigOk ops => (!splitRegChecksKey || regAddr b == mergeKeyRegAddr) && regVerified (.reg b sigOk ops)
   | _ => false
 
 def regBase : Content → Nat
@@ -390,6 +412,15 @@ def mergeSplit (order : List Content) : Option Content :=
         some (.reg (regBase r0) true (mergeable.foldl (fun acc r => unionInto acc (regOps r)) []))
     | .pad => bestPad same
 
+/-- The `Register` arm and the fold over `collected_registers` as they were before the address check: every register
+that `verify()`s is collected, whatever its address; the first one visited dictates the base. -/
+def mergeRegsUnchecked (same : List Content) : Option Content :=
+  match same.filter regVerified with
+  | [] => none
+  | r0 :: rest =>
+    let mergeable := (r0 :: rest).filter (fun r => regBase r == regBase r0)
+    some (.reg (regBase r0) true (mergeable.foldl (fun acc r => unionInto acc (regOps r)) []))
+
 /-! ### The result map and the order in which it is visited
 
 A result map is a list of `(content hash, version)` entries in the `HashMap`'s own (arbitrary) iteration order; the
@@ -409,5 +440,89 @@ def visitOrder (m : List (Nat × Content)) : List Content :=
 
 /-- `handle_split_record_error` on a result map -/
 def mergeSplitMap (m : List (Nat × Content)) : Option Content := mergeSplit (visitOrder m)
+
+/-! ## `Network::get_record_from_network`: the retry loop around one `GetNetworkRecord` per attempt
+
+One attempt = a fresh `GetNetworkRecord` (the caller is the query's only and first caller), the replies of the
+holders and the terminating kad event; what the attempt puts on the caller's channel is computed by `step`. -/
+
+inductive Term where
+  | finished | notFound | quorumFailed | timeout
+  deriving DecidableEq, Repr
+
+structure Attempt where
+  replies : List (Nat × Content)
+  term : Term
+  deriving Repr
+
+def Term.op : Term → Op
+  | .finished => .finished 0
+  | .notFound => .notFound 0
+  | .quorumFailed => .quorumFailed 0
+  | .timeout => .timeout 0
+
+def Attempt.ops (cfg : Cfg) (a : Attempt) : List Op :=
+  .get 0 0 cfg :: (a.replies.map (fun r => Op.found 0 r.1 r.2 none) ++ [a.term.op])
+
+/-- what the attempt puts on the caller's oneshot channel -/
+def attemptOutcome (cfg : Cfg) (a : Attempt) : Option Outcome :=
+  ((run (a.ops cfg)).delivered.find? (fun d => d.1 == 0)).map (·.2)
+
+/-- result of `get_record_from_network` -/
+inductive NetOut where
+  | ok (c : Content)
+  /-- `Err(err.into())` with the last attempt's error -/
+  | err (o : Outcome)
+  /-- the channel was dropped: `InternalMsgChannelDropped`, no retry -/
+  | chan
+  deriving DecidableEq, Repr
+
+/-- position of `c` in `ord` (the content-hash order of the versions, a choice witness) -/
+def posIn (ord : List Content) (c : Content) : Nat :=
+  match ord with
+  | [] => 0
+  | x :: xs => if x = c then 0 else posIn xs c + 1
+
+/-- the result map of a `SplitRecord` as `handle_split_record_error` sees it: keyed by content hash -/
+def hashMapOf (ord : List Content) (m : List (Content × List Nat)) : List (Nat × Content) :=
+  m.map (fun e => (posIn ord e.1, e.1))
+
+/-- the attempt the holders answer next (an attempt not listed finds nothing) -/
+def firstAttempt (atts : List Attempt) : Attempt := atts.headD { replies := [], term := .notFound }
+
+/-- what `get_record_from_network` does with what it finds on the channel: `inl` = return, `inr` = log and retry -/
+def netTryOf (ord : List Content) (o : Outcome) : NetOut ⊕ Outcome :=
+  match o with
+  | .ok c => .inl (.ok c)
+  | .closed => .inl .chan
+  | .split m =>
+    match mergeSplitMap (hashMapOf ord m) with
+    | some r => .inl (.ok r)
+    | none => .inr o
+  | _ => .inr o
+
+def netTry (ord : List Content) (cfg : Cfg) (atts : List Attempt) : NetOut ⊕ Outcome :=
+  netTryOf ord ((attemptOutcome cfg (firstAttempt atts)).getD .closed)
+
+/-- `get_record_from_network`: `retries` = number of back-off intervals left (`RetryStrategy::attempts() - 1`),
+`atts` = what the holders do in the successive attempts (an attempt not listed finds nothing). `Ok(record)` of an
+attempt is returned as it is; a `SplitRecord` that `handle_split_record_error` merges is returned as `Ok(merged)` —
+`does_target_match` is not consulted; every other error is retried while the back-off lasts. -/
+def netLoop (ord : List Content) (cfg : Cfg) : Nat → List Attempt → NetOut
+  | 0, atts =>
+    match netTry ord cfg atts with
+    | .inl r => r
+    | .inr o => .err o
+  | n + 1, atts =>
+    match netTry ord cfg atts with
+    | .inl r => r
+    | .inr _ => netLoop ord cfg n atts.tail
+
+/-- `does_target_match` on whole `Record`s: a plain target is compared with `target_record == record`, i.e. value, key,
+publisher and expiry; `recMeta` = the record handed over (the completing reply's) carries a publisher / an expiry, which
+the caller's target never does. The `is_register` comparison looks at the value only. -/
+def sendCheckedM (cfg : Cfg) (c : Content) (recMeta : Bool) : Outcome :=
+  if recMeta && !cfg.isReg && cfg.target.isSome then (if targetChecked then .mismatch c else .ok c)
+  else sendChecked cfg c
 
 end SafeNet.Quorum
